@@ -9,7 +9,6 @@ import (
 	"fmt"
 	"os"
 	"strings"
-	"sync"
 	"time"
 
 	"verifharness/hx"
@@ -57,83 +56,65 @@ func flush(r *hx.Run, sub uint64, res *result) {
 }
 
 func main() {
-	r := hx.Start()
-	installHooks()
-	r.Rule = "cases = forced schedules (hooks: Submit window, PopOrWait gap, Start window), deterministic life cycles and stress runs over W in 1..4 x cancel on/off x " +
-		"modes drain|racing|pending|restart x nesting depth 0..2, plus group trees; non-trivial = at least one task accepted " +
-		"(distinct by descriptor, accepted/rejected counts and trace length) or a forced schedule / group script executed"
-	if lines := r.ReplayLines(); lines != nil {
-		for _, l := range lines {
-			if res := execDescriptor(l); res != nil {
-				flush(r, 0, res)
-			}
-		}
-		r.Finish()
+	if len(os.Args) == 4 && os.Args[1] == "--child" {
+		childMain(os.Args[2], os.Args[3])
 
 		return
 	}
-	// corpus first: forced schedules (Lean witnesses replayed on the real code) and deterministic life cycles
-	var descs []string
-	for _, s := range []string{"restart", "window", "window-busy", "gap", "start-race"} {
-		descs = append(descs, "sched "+s)
-	}
-	for _, cancel := range []bool{false, true} {
-		for w := 1; w <= 4; w++ {
-			descs = append(descs,
-				runCfg{"restart", w, cancel, 1, 3, 0, 3, 1}.String(),
-				runCfg{"drain", w, cancel, 1, 4, 2, 1, 2}.String(),
-				runCfg{"pending", w, cancel, 1, 6, 0, 2, 3}.String())
-		}
-	}
-	descs = append(descs, groupCorpus()...)
-	for _, d := range descs {
-		flush(r, 0, execDescriptor(d))
-	}
-	// generated: stress cases, a few at a time in parallel (each has its own pool and log)
-	n := 320 * r.Scale
-	modes := []string{"drain", "racing", "racing", "pending", "restart"}
-	type job struct {
-		sub uint64
-		d   string
-	}
+	r := hx.Start()
+	r.Rule = "cases = forced schedules (hooks: Submit window, PopOrWait gap, Start window), deterministic life cycles and stress runs over W in 1..4 x cancel on/off x " +
+		"modes drain|racing|pending|restart x nesting depth 0..2, plus group trees; non-trivial = at least one task accepted " +
+		"(distinct by descriptor, accepted/rejected counts and trace length) or a forced schedule / group script executed; " +
+		"cases run in child processes, a crash of the code under test is an oracle failure of the case that was running"
 	var jobs []job
-	for i := 0; i < n; i++ {
-		rng, sub := r.Rng.Fork()
-		if i%8 == 7 {
-			jobs = append(jobs, job{sub, genGroup(rng)})
-
-			continue
-		}
-		c := runCfg{mode: hx.Pick(rng, modes), w: rng.Range(1, 4), cancel: rng.Bool(), subs: rng.Range(1, 4),
-			tasks: rng.Range(1, 24), depth: rng.Intn(3), rounds: rng.Range(1, 3), seed: rng.U64() % 1000000}
-		jobs = append(jobs, job{sub, c.String()})
-	}
-	const par = 4
-	for i := 0; i < len(jobs); i += par {
-		batch := jobs[i:min(i+par, len(jobs))]
-		out := make([]*result, len(batch))
-		var wg sync.WaitGroup
-		for k, j := range batch {
-			wg.Add(1)
-			go func() {
-				defer wg.Done()
-				out[k] = execDescriptor(j.d)
-			}()
-		}
-		wg.Wait()
-		for k, j := range batch {
-			if out[k] == nil {
-				panic(fmt.Sprint("bad descriptor ", j.d))
+	if lines := r.ReplayLines(); lines != nil {
+		for _, l := range lines {
+			f := strings.Fields(l)
+			if len(f) > 0 && (f[0] == "sched" || f[0] == "run" || f[0] == "group") {
+				jobs = append(jobs, job{0, l})
 			}
-			flush(r, j.sub, out[k])
 		}
+	} else {
+		// corpus first: forced schedules (Lean schedules replayed on the real code) and deterministic life cycles
+		for _, s := range []string{"restart", "window", "window-busy", "gap", "start-race"} {
+			jobs = append(jobs, job{0, "sched " + s})
+		}
+		for _, cancel := range []bool{false, true} {
+			for w := 1; w <= 4; w++ {
+				jobs = append(jobs,
+					job{0, runCfg{"restart", w, cancel, 1, 3, 0, 3, 1}.String()},
+					job{0, runCfg{"drain", w, cancel, 1, 4, 2, 1, 2}.String()},
+					job{0, runCfg{"pending", w, cancel, 1, 6, 0, 2, 3}.String()})
+			}
+		}
+		for _, d := range groupCorpus() {
+			jobs = append(jobs, job{0, d})
+		}
+		// generated: stress cases
+		n := 320 * r.Scale
+		modes := []string{"drain", "racing", "racing", "pending", "restart"}
+		for i := 0; i < n; i++ {
+			rng, sub := r.Rng.Fork()
+			if i%8 == 7 {
+				jobs = append(jobs, job{sub, genGroup(rng)})
+
+				continue
+			}
+			c := runCfg{mode: hx.Pick(rng, modes), w: rng.Range(1, 4), cancel: rng.Bool(), subs: rng.Range(1, 4),
+				tasks: rng.Range(1, 24), depth: rng.Intn(3), rounds: rng.Range(1, 3), seed: rng.U64() % 1000000}
+			jobs = append(jobs, job{sub, c.String()})
+		}
+	}
+	runJobs(r.OutDir, jobs, 120, func(j job, res *result) bool {
+		flush(r, j.Sub, res)
 		// enough evidence: every further failing case costs its full wait bounds
-		unrecorded := len(r.Findings)
-		if unrecorded >= 24 {
+		if len(r.Findings) >= 24 {
 			r.Count("aborted-after-many-findings")
 
-			break
+			return false
 		}
-	}
+
+		return true
+	})
 	r.Finish()
 }
